@@ -187,6 +187,14 @@ func runReplay(root string, rule replayRule, groups []string, inst ReplayInstanc
 		}
 		return sm[2]
 	})
+	if strings.HasPrefix(rule.Tags, "$") {
+		var k int
+		fmt.Sscanf(rule.Tags[1:], "%d", &k)
+		rule.Tags = ""
+		if k < len(groups) {
+			rule.Tags = groups[k]
+		}
+	}
 	return execReplay(root, rule, body, params)
 }
 
